@@ -168,6 +168,10 @@ pub fn units(prop: &str, tier: Tier) -> Option<Vec<Unit>> {
                 // the same grammars with every combinator value used through its own Clone impl (original dropped)
                 class("k01-through-clone", &k, pick(3, 4)).alarm(alarm).clone_mode().unit(),
             ];
+            // the PEG reading does not depend on how the input is stored (cursor save / rewind are per input kind)
+            for kind in [KindId::Stream, KindId::Io, KindId::MappedGapped, KindId::U8] {
+                v.push(class(&format!("k01-{}", kind.name()), &k, pick(3, 4)).kind(kind).alarm(alarm).unit());
+            }
             if !q {
                 v.push(class("kcore-deep", &en::k_core(), 6).alarm(alarm).unit());
             }
@@ -187,6 +191,12 @@ pub fn units(prop: &str, tier: Tier) -> Option<Vec<Unit>> {
                     .unit(),
                 e1("k02-iter-chains", "iterable parsers used as such: a.or_not() as an iterator, and every pair of links (repeated / separated_by / or_not / into_iter) joined by IterParser::then, x 7 sinks, each followed by a rest capture".into(), en::k02_chain(!q))
                     .alpha(&ABCOMMA, pick(5, 6))
+                    .alarm(alarm)
+                    .unit(),
+                e1("k02-configured-uncollected", "item.repeated().configure / try_configure (bounds from the context) used without collect (unit parser, to_slice, ignored, sequence, count())".into(), en::ctx_bare_templates())
+                    .len(pick(5, 6))
+                    .cfg(CfgId::RichCx)
+                    .probes(NOPROBE)
                     .alarm(alarm)
                     .unit(),
                 e1("k02-separated-multibyte", "separated_by() templates on multi-byte text".into(), en::k02_sep(false)).alpha(&ABC, 4).kind(KindId::StrMb).alarm(alarm).unit(),
@@ -294,6 +304,16 @@ pub fn units(prop: &str, tier: Tier) -> Option<Vec<Unit>> {
                 v.push(class(&format!("kext-{n}"), &k, pick(3, 4)).cfg(c).probes(NOPROBE).alarm(alarm).unit());
             }
             v.push(class("kcore-rich", &en::k_core(), pick(4, 5)).alarm(alarm).unit());
+            for (n, c) in [("rich", CfgId::Rich), ("cheap", CfgId::Cheap)] {
+                v.push(
+                    e1(&format!("kalt-deep-{n}"), format!("every Kalt grammar (try_map / try_map_with / filter / or_not over then / or) with <= {} nodes that contains a try_map, try_map_with or filter", pick(7, 8)), en::k_alt().upto(pick(7, 8)).into_iter().filter(|g| g.any_node(&|x| matches!(x, TryMap(_) | TryMapWith(_) | Filter(_)))).collect())
+                        .alpha(&['a', 'b'], pick(3, 4))
+                        .cfg(c)
+                        .probes(NOPROBE)
+                        .alarm(alarm)
+                        .unit(),
+                );
+            }
             v.push(class("kext-rich-through-clone", &k, 3).probes(NOPROBE).alarm(alarm).clone_mode().unit());
             v.push(class("k01-rich", &en::k01(), pick(3, 4)).alarm(alarm).unit());
             v.push(
@@ -535,6 +555,12 @@ pub fn units(prop: &str, tier: Tier) -> Option<Vec<Unit>> {
                     .probes(CTX)
                     .alarm(alarm)
                     .unit(),
+                e1("ctx-configured-uncollected", "item.repeated().configure / try_configure (exactly / at_most from ctx) used WITHOUT collect - as a unit parser, inside to_slice / ignored / a sequence, and through count(): 5 items x 6 kinds x 4 uses x 6 context providers, each followed by a rest capture".into(), en::ctx_bare_templates())
+                    .len(pick(5, 6))
+                    .cfg(CfgId::RichCx)
+                    .probes(CTX)
+                    .alarm(alarm)
+                    .unit(),
                 e1("ctx-families", "hand-built context-sensitive families: length-prefixed (nested, repeated, in choices), range from context, try_configure errors, delimiter-echo (nested providers), recursion under a context, indentation-like levels".into(), en::ctx_families())
                     .len(pick(6, 8))
                     .cfg(CfgId::RichCx)
@@ -585,6 +611,8 @@ pub fn units(prop: &str, tier: Tier) -> Option<Vec<Unit>> {
                 v.push(class(&format!("k01-{n}"), &en::k01(), pick(3, 3)).cfg(c).probes(NOPROBE).alarm(alarm).unit());
                 if n == "rich" {
                     v.push(rec_unit("leftrec", tier));
+                    // "no stack exhaustion": operator chains and nestings up to a million levels
+                    v.push(rec_unit("rec-depth", tier));
                     v.push(e1("k02-iter-chains", "iterable parsers chained with IterParser::then (repeated / separated_by / or_not / into_iter links) x 7 sinks".into(), en::k02_chain(false)).alpha(&ABCOMMA, pick(4, 5)).probes(NOPROBE).alarm(alarm).unit());
                     v.push(Unit::Custom { name: "pull-budgets".into(), run: Box::new(move |cx| eng_inputs::run("pull-budgets", tier, cx)) });
                     v.push(Unit::Custom { name: "text-totality".into(), run: Box::new(move |cx| eng_text::run_totality("text-totality", if tier == Tier::Quick { 4 } else { 5 }, cx)) });
